@@ -11,6 +11,8 @@ Line protocol of the C16 correspondence run (same request file as harness/src/bi
 
   `(ddl <TY> (opts <null|notnull|unique|pk>*))` -> `ok nullable=<b> primary=<b>` | `err`: what CREATE TABLE catalogues
   `(ddlre <TY> (opts …))`: the same on a disk database, read back after shutdown + reopen
+  `(ddlt (decls (<TY> (opts o* [k<n>]))*))` -> `ok (n<0|1>p<0|1>)*` | `err`: a whole table; `k<n>` = the column is the
+      n-th one listed in a table-level `PRIMARY KEY (…)` constraint; `ddltre`: after shutdown + reopen (disk)
   engine `diskre` of the INSERT scenarios: disk, with shutdown + reopen between the CREATE TABLEs and the INSERTs
   decl: `(<TY> <null|notnull|pk>)` or `(<TY> (opts o*))` (column options as written, in order)
   `(inscols <eng> (decls …) (cols i…) (rows …))`  INSERT INTO t(c_i…) VALUES …, same answer format
@@ -122,17 +124,47 @@ def parseOpts : List Sexp → Option (List ColOpt)
   | .atom o :: rest => do pure ((← parseOpt o) :: (← parseOpts rest))
   | _ => none
 
-def parseDecls : List Sexp → Option (List ColDecl)
+/-- Options of one column plus its position in the table-level `PRIMARY KEY (…)` list: the pseudo
+option `k<n>` (n = 1, 2, 3) says "n-th column listed in the table constraint". -/
+def parseOptsK : List Sexp → Option (List ColOpt × Option Nat)
+  | [] => some ([], none)
+  | .atom o :: rest => do
+    let (os, k) ← parseOptsK rest
+    if o.startsWith "k" then
+      match (o.drop 1).toString.toNat? with
+      | some n => pure (os, some n)
+      | none => none
+    else pure ((← parseOpt o) :: os, k)
+  | _ => none
+
+/-- `(TY null|notnull|pk)` or `(TY (opts o* [k<n>]))`: type, options as written, key position. -/
+def parseRawDecls : List Sexp → Option (List (Ty × List ColOpt × Option Nat))
   | [] => some []
   | .list [.atom t, .atom n] :: rest => do
-    pure (⟨← parseTyName t, n == "null"⟩ :: (← parseDecls rest))
-  -- `(TY (opts o*))`: the column options as written, in order; nullability = what
-  -- `bind_create_table` catalogues (model `catalogOf`)
+    let os ← if n == "null" then some [] else if n == "notnull" then some [ColOpt.notNull]
+      else if n == "pk" then some [ColOpt.primaryKey] else none
+    pure ((← parseTyName t, os, none) :: (← parseRawDecls rest))
   | .list [.atom t, .list (.atom "opts" :: os)] :: rest => do
-    let opts ← parseOpts os
-    let nullable := match catalogOf opts with | some (n, _) => n | none => true
-    pure (⟨← parseTyName t, nullable⟩ :: (← parseDecls rest))
+    let (opts, k) ← parseOptsK os
+    pure ((← parseTyName t, opts, k) :: (← parseRawDecls rest))
   | _ => none
+
+/-- The table-level key: the column indices in the order of their `k<n>` tags. -/
+def keyOfRaw (raw : List (Ty × List ColOpt × Option Nat)) : List Nat :=
+  (List.range 8).flatMap fun k =>
+    (List.range raw.length).filter fun i => match raw[i]? with | some (_, _, some k') => k' == k | _ => false
+
+/-- What `bind_create_table` catalogues for the table (model `tableCatalogOf`). -/
+def catalogOfRaw (raw : List (Ty × List ColOpt × Option Nat)) : Option (List (Bool × Bool)) :=
+  tableCatalogOf (raw.map fun r => r.2.1) (keyOfRaw raw)
+
+/-- Declared columns: nullability = what `bind_create_table` catalogues (column options folded in
+order, every inline / table-level key column forced NOT NULL). -/
+def parseDecls (ds : List Sexp) : Option (List ColDecl) := do
+  let raw ← parseRawDecls ds
+  match catalogOfRaw raw with
+  | some cat => pure ((raw.zip cat).map fun (r, c) => ⟨r.1, c.1⟩)
+  | none => pure (raw.map fun r => ⟨r.1, (optFold (true, false) r.2.1).1⟩)   -- bind error: not generated
 
 def parseVals : List Sexp → Option (List IVal)
   | [] => some []
@@ -163,6 +195,13 @@ def answerDdl (os : List Sexp) : String :=
     | none => "err"
   | none => "bad-request"
 
+def answerDdlt (ds : List Sexp) : String :=
+  match parseRawDecls ds with
+  | some raw => match catalogOfRaw raw with
+    | some cat => "ok " ++ " ".intercalate (cat.map fun c => "n" ++ (if c.1 then "1" else "0") ++ "p" ++ (if c.2 then "1" else "0"))
+    | none => "err"
+  | none => "bad-request"
+
 def answer (line : String) : String :=
   match Sexp.parse line with
   | some (.list [.atom "type", e]) =>
@@ -175,6 +214,9 @@ def answer (line : String) : String :=
   -- the same CREATE TABLE on a disk database, read after shutdown + reopen: the model has no
   -- persistence; "the catalog entry survives reopen" is the hypothesis this request checks
   | some (.list [.atom "ddlre", .atom _ty, .list (.atom "opts" :: os)]) => answerDdl os
+  -- whole tables with a table-level `PRIMARY KEY (…)`: flags of every column (`ddltre`: after reopen)
+  | some (.list [.atom "ddlt", .list (.atom "decls" :: ds)]) => answerDdlt ds
+  | some (.list [.atom "ddltre", .list (.atom "decls" :: ds)]) => answerDdlt ds
   | some (.list [.atom "ptype", p]) =>
     match parseP p with
     | some t => match typeOfPlan t with
